@@ -43,6 +43,7 @@ def c05_worker(item):
     r = random.Random(seed * 7919 + 5)
     res = Res()
     cfg = wsgen.GenConfig(p_fail=0.75, max_patches=r.choice([2, 4, 6, 8]))
+    cfg.p_second_fail = 0.3
     ws = wsgen.generate(seed, cfg)
     threads = r.choice([1, 1, 2, 4, 16])
     backup = r.choice(["always", "onfail", "never", None])
@@ -562,9 +563,9 @@ def cli_c13(v, tier, seed):
 # strace helper
 
 
-def run_traced(binary, cwd, args, log):
+def run_traced(binary, cwd, args, log, env_extra=None):
     import stracelog
-    rr = runner.run_rq(binary, cwd, args, pre=stracelog.STRACE + ["-o", log], timeout=120)
+    rr = runner.run_rq(binary, cwd, args, pre=stracelog.STRACE + ["-o", log], timeout=120, env_extra=env_extra)
     ev = stracelog.parse(log, cwd) if os.path.exists(log) else []
     return rr, ev
 
@@ -579,10 +580,18 @@ def c10_worker(item):
     r = random.Random(seed * 49979687 + 10)
     res = Res()
     cfg = wsgen.GenConfig(p_fail=0.5, max_patches=r.choice([1, 3, 6]))
+    cfg.p_second_fail = 0.6
     ws = wsgen.generate(seed, cfg)
     threads = r.choice([1, 4])
     backup = r.choice(["always", "onfail", "never", None])
     verbosity = r.choice(["-q", None, "-v"])
+    failing = [i for i, p in enumerate(ws.patches) if p.fails()]
+    sched = None
+    if threads > 1 and len(failing) >= 2:
+        # forced schedule for the prediction clause: a later failing patch is flagged before the worker that
+        # owns the first failing patch gets to it (the dry-run must still report the first one)
+        i, j = failing[0], r.choice(failing[1:])
+        sched = ["after flagged:%d apply-begin:%d:* 300" % (j, i)] if r.random() < 0.7 else ["delay apply-begin:%d:* 30" % i]
     first = 0
     if ws.fail_at is None and len(ws.patches) > 1 and r.random() < 0.3:
         first = r.randint(1, len(ws.patches) - 1)
@@ -596,7 +605,14 @@ def c10_worker(item):
         realdir = os.path.join(scr, "real")
         runner.copy_ws(orig, realdir)
         before = runner.snapshot(work, with_meta=True)
-        rr, events = run_traced(binary, work, dry, os.path.join(scr, "strace.log"))
+        env_extra = None
+        if sched:
+            sp = os.path.join(scr, "sched.txt")
+            with open(sp, "w") as f:
+                f.write("\n".join(sched) + "\n")
+            env_extra = {"RAPIDQUILT_VERIF_SCHED": sp}
+            res.count("dry-runs-under-a-forced-flag-order")
+        rr, events = run_traced(binary, work, dry, os.path.join(scr, "strace.log"), env_extra=env_extra)
         after = runner.snapshot(work, with_meta=True)
         res["evals"] = 1
         if rr.timed_out:
@@ -673,8 +689,16 @@ def c15_worker(item):
             os.link(src, dst)
         before = runner.snapshot(work, with_meta=True)
         twin_before = runner.snapshot(twin, with_meta=True)
-        rr, events = run_traced(binary, work, args, os.path.join(scr, "strace.log"))
+        env_extra = None
+        faulted = r.random() < 0.3
+        if faulted:
+            # an output operation of this run fails (unlink, open, write ...): the push may fail, but a hard-linked copy must still not change
+            from common import SHIM_SO
+            env_extra = {"LD_PRELOAD": SHIM_SO, "FAULTSHIM_ROOT": work, "FAULTSHIM_FAIL_AT": str(r.randint(1, 12)), "FAULTSHIM_ERRNO": str(r.choice([13, 5, 28]))}
+        rr, events = run_traced(binary, work, args, os.path.join(scr, "strace.log"), env_extra=env_extra)
         res["evals"] = 1
+        if faulted:
+            res.count("runs-with-an-injected-output-fault")
         if rr.timed_out:
             res["inconclusive"] = "watchdog"
             return res
@@ -732,6 +756,8 @@ def c15_worker(item):
 
 
 def cli_c15(v, tier, seed):
+    from common import build_shim
+    build_shim()
     b = rq()
     cli.pool_run(v, c15_worker, [(seed * 1_000_003 + i, b) for i in range(n(tier, 3000, 40000))])
 
@@ -890,7 +916,7 @@ def c14_worker(item):
     seed, binary = item
     r = random.Random(seed * 982451653 + 14)
     res = Res()
-    shape = r.choice(["plain", "plain", "plain", "empty-source", "empty-patch", "empty-series", "all-applied", "goal-applied"])
+    shape = r.choice(["plain", "plain", "plain", "empty-source", "empty-patch", "empty-series", "all-applied", "goal-applied", "symlinked-source", "symlinked-patch"])
     cfg = wsgen.GenConfig(p_fail=0.5, max_patches=r.choice([1, 3, 6]))
     ws = wsgen.generate(seed, cfg)
     first = 0
@@ -944,6 +970,20 @@ def c14_worker(item):
     sig0 = {"driver": "seq" if threads == 1 else "par", "shape": shape}
     with Scratch("c14") as scr:
         orig, w1 = fresh(scr, ws, first)
+        if shape in ("symlinked-source", "symlinked-patch"):
+            # the file to patch (or the patch file) is a symbolic link to a file kept elsewhere in the workspace
+            import shutil as _sh
+            _sh.rmtree(w1)
+            pool = os.path.join(orig, "pool")
+            os.makedirs(pool, exist_ok=True)
+            cands = sorted(ws.trees[first]) if shape == "symlinked-source" else ["patches/" + p.name for p in ws.patches]
+            for k, rel in enumerate(cands[:3]):
+                src = os.path.join(orig, rel)
+                if os.path.isfile(src) and not os.path.islink(src):
+                    dst = os.path.join(pool, "real-%d" % k)
+                    os.rename(src, dst)
+                    os.symlink(os.path.relpath(dst, os.path.dirname(src)), src)
+            runner.copy_ws(orig, w1)
         w2 = os.path.join(scr, "w2")
         runner.copy_ws(orig, w2)
         r1 = runner.run_rq(binary, w1, base)
@@ -1642,7 +1682,8 @@ def c06_cleanup_race_case(r, seed):
             ws.patches.append(p)
     t1 = {g: (op_mod.post, 0o644), "other/z.txt": (op_oth.post, 0o644)}
     ws.trees = [t0, t1]
-    script = ["delay save-create:%s 40" % g, "after save-unlink:%s clean-readdir:%s 300" % (g, d), "after save-unlink:%s clean-rmdir:%s 300" % (g, d)]
+    script = ["delay save-create:%s 40" % g, "after save-unlink:%s save-unlink:%s 300" % (g, f),
+              "after save-unlink:%s clean-readdir:%s 300" % (g, d), "after save-unlink:%s clean-rmdir:%s 300" % (g, d)]
     return ws, script
 
 
